@@ -68,6 +68,7 @@ def demo(d, wt):
                 open(p, "w").write(s)
                 shutil.copy(os.path.join(wt, "go.sum"), os.path.join(root, "go.sum"))
     cmd = meta.get("demo_cmd") or "go test -count=1 ./..."
+    cmd = re.split(r"\s{2,}\(", cmd)[0]
     cmd = re.sub(r"cd\s+\S*demo\S*\s*&&\s*", "", cmd)
     cmd = re.sub(r"(export\s+)?GOFLAGS=\S+\s*|GOPROXY=\S+\s*|;\s*", " ", cmd).strip()
     cmd = re.sub(r"^(export\s*)?(&&\s*)+", "", cmd).strip()
